@@ -8,7 +8,7 @@
 From Coq Require Import QArith List Arith ZArith Lia.
 From BCT Require Import Base.Mat Base.SumQ Base.ListX Model.Modularity Proofs.ModularitySums Proofs.ModularityQ Proofs.ModularityGain
   Proofs.ModularityRun Proofs.ModularityRunSign Proofs.ModularityRunB Model.ModularityGood Proofs.ModularityGood
-  Model.ModularitySelect Proofs.ModularitySelect Proofs.ModularityAuto Proofs.ModularityRunFull.
+  Model.ModularitySelect Proofs.ModularitySelect Proofs.ModularityAuto Proofs.ModularityBound Proofs.ModularityRunFull.
 Import ListNotations.
 Open Scope Q_scope.
 
@@ -351,6 +351,18 @@ Theorem C07_levels_strict : forall qs prev, incr_from prev (retained_from prev q
 Proof. exact levels_strict. Qed.
 Theorem C07_retained_prefix : forall qs prev, exists rest, qs = retained_from prev qs ++ rest.
 Proof. exact retained_prefix. Qed.
+(* the hierarchy clause as ONE statement about what hierarchy=True returns (run_louvain_und_hier = ci[1:-1], q[1:-1], slice
+   inside the model): for symmetric W and a level count obeying the code's stopping rule, every returned q IS the true
+   modularity (on the original network) of the returned labels of that level, and these values increase strictly, by at
+   least 1e-10 per level, starting above -1 *)
+Theorem C07_louvain_und_hierarchy_strict : forall rows g lv, sym_rows rows ->
+  stop_rule_ok (level_qs (run_louvain_und rows g lv)) ->
+  let h := run_louvain_und_hier rows g lv in
+  length (fst h) = length (snd h) /\
+  Forall2 (fun ci q => (exists k, labels_exact (length rows) ci k) /\
+                       q = Qred (Qund (length rows) (rowsW rows) g (fun x => nth x ci O))) (fst h) (snd h) /\
+  incr_from (- (1)) (snd h).
+Proof. exact louvain_und_hierarchy. Qed.
 
 (* ---- restart from the routine's own output (any integer label list) ---- *)
 Theorem C07_idempotent_restart : forall n W g ci_out ms,
@@ -437,3 +449,4 @@ Print Assumptions C07_finetune_und_restart.
 Print Assumptions C07_finetune_dir_restart.
 Print Assumptions C07_finetune_sign_restart.
 Print Assumptions C07_community_louvain_restart.
+Print Assumptions C07_louvain_und_hierarchy_strict.
